@@ -125,6 +125,10 @@ func setupSimcb(c *casket.Controller) error {
 
 func setupSimfail(c *casket.Controller) error {
 	for c.Next() {
+		if c.NextArg() && c.Val() == "panic" {
+			cur.C.Fault("directive-setup-panics")
+			panic("simfail: injected setup panic")
+		}
 		return c.Err("simfail: injected setup failure")
 	}
 	return nil
